@@ -14,7 +14,7 @@ import (
 var (
 	poolTD     = []string{"cluster.local", "td1", "old-td", "cluster.local", "td1"}
 	poolNS     = []string{"foo", "bar", "foo-1", "prod", "default", "dev"}
-	poolSA     = []string{"a", "sleep", "httpbin", "bar", "admin"}
+	poolSA     = []string{"a", "sleep", "httpbin", "bar", "admin", "my.sa"}
 	poolHost   = []string{"example.com", "Example.com", "a.example.com", "example.com:8080", "test.org", "EXAMPLE.COM"}
 	poolMethod = []string{"GET", "POST", "PUT", "get", "G", "DELETE"}
 	poolPath   = []string{"/", "/a", "/a/b", "/admin", "/admin/x", "/A", "/a.b", "/x+y", "/info/v1", "/a/b/c"}
